@@ -32,7 +32,8 @@ def drainArms : List Reloader.Sk → List (List Reloader.Sk)
 theorem skel_iteration_head : (outerLoop skel_hot_reloading_mod_hot_reloading_thread).take 1 = [.call .s_ready] := rfl
 /-- the drain loop handles the four messages ... -/
 theorem skel_drain_arms : (drainArms (outerLoop skel_hot_reloading_mod_hot_reloading_thread)).take 4 =
-    [[.call .s_update_if_local, .call .s_notify], [.call .s_use_static_ref], [.call .s_clear_local_cache], [.call .s_add_asset]] := rfl
+    [[.loop [.call .s_try_recv, .branch [[.call .s_handle_events], []]], .call .s_update_if_local, .call .s_notify],
+     [.call .s_use_static_ref], [.call .s_clear_local_cache], [.call .s_add_asset]] := rfl
 /-- ... and ends on a receive error: by leaving the drain loop only, or the drain loop on `Empty` and the thread on `Disconnected` -/
 theorem skel_drain_exit :
     (drainArms (outerLoop skel_hot_reloading_mod_hot_reloading_thread)).drop 4 = [[.brk]] ∨
